@@ -29,7 +29,7 @@ RULE = ("cases: (rows, V placement, family, scaling); executions: units x units 
 ASSUMPTIONS = ["tables are increasing in wavelength and cover 0.55 micron (the property's precondition)",
                "opacities from finite families (constant, power law, non-monotonic, seed-derived positive)"]
 OPS = ['scale-chi', 'chi-unit', 'wav-unit', 'new-chi', 'pickle', 'new-table', 'table-roundtrip-discarded', 'new-wav']
-REQUIRED_CLASSES = ['law-file-with-three-digit-exponents', 'columns-counted-from-the-end', 'two-laws-on-the-same-arrays', 'table-through-a-fits-file', 'queries-not-bracketing-V', 'law-file-replaced-and-read-again', 'query-unsorted-and-2d', 'table-native-in-other-unit', 'history-depth-3', 'history-new-chi-after-query', 'V-between', 'V-on-node', 'V-first', 'V-last', 'outside-zero', 'exact-at-V', 'pickle', 'table', 'file',
+REQUIRED_CLASSES = ['query-with-the-numbers-of-the-table-in-another-unit', 'law-file-with-three-digit-exponents', 'columns-counted-from-the-end', 'two-laws-on-the-same-arrays', 'table-through-a-fits-file', 'queries-not-bracketing-V', 'law-file-replaced-and-read-again', 'query-unsorted-and-2d', 'table-native-in-other-unit', 'history-depth-3', 'history-new-chi-after-query', 'V-between', 'V-on-node', 'V-first', 'V-last', 'outside-zero', 'exact-at-V', 'pickle', 'table', 'file',
                     'unit-change', 'scaled', 'non-monotonic']
 
 
@@ -290,6 +290,23 @@ def run_case(ctx, case, rec, d):
                 okq = okq and np.all((np.abs(r3 - e2[:n3]) <= 1e-9 * np.maximum(1, np.abs(e2[:n3]))) | (edge[:n3] & (r3 == 0) & (not same_unit)))
                 if not okq:
                     rec.violation('get_av|value|query-order-or-shape', sub, {'query_micron': q2[:6], 'got': r2[:6], 'expected': e2[:6]})
+            # a query made of the table's own numbers but in another unit of length: they are other wavelengths
+            if fname == 'fresh':
+                native = (wt * u.micron).to(wu).value
+                other = u.nm if wu != u.nm else u.micron
+                q4 = (native * other).to(u.micron).value
+                try:
+                    r4 = np.asarray(obj.get_av(native * other), dtype=float)
+                    e4 = np.asarray(extref.pattern(list(wt), list(ct), list(q4)), float)
+                except Exception as ex:
+                    rec.violation('get_av|exception|query-shape', dict(sub, queries='table-numbers-in-another-unit'), {'type': type(ex).__name__, 'msg': str(ex)[:200]})
+                    continue
+                rec.ev()
+                rec.cls('query-with-the-numbers-of-the-table-in-another-unit')
+                edge4 = np.array([abs(x - wt[0]) < 1e-9 * wt[0] or abs(x - wt[-1]) < 1e-9 * wt[-1] for x in q4])
+                if r4.shape != e4.shape or not np.all((np.abs(r4 - e4) <= 1e-9 * np.maximum(1, np.abs(e4))) | (edge4 & (r4 == 0))):
+                    rec.violation('get_av|value|table-numbers-in-another-unit', dict(sub, queries='table-numbers-in-another-unit'),
+                                  {'table_numbers': native[:6], 'table_unit': str(wu), 'query_unit': str(other), 'got': r4[:6], 'expected': e4[:6]})
             if first:
                 rec.sample({'table_wav_micron': wt[:5], 'table_chi': ct[:5], 'queries_micron': q[:8], 'expected': exp[:8], 'units': sub})
                 first = False
